@@ -452,7 +452,7 @@ class Light(SystemWideDevice, DevicePositionMixin):
         elif not isinstance(key, str):
             raise AssertionError("Key should be string")
 
-        if self.stack and priority < self._get_priority_from_key(key):
+        if self.stack and any(x.key == key for x in self.stack) and priority < self._get_priority_from_key(key):
             if self._debug:
                 self.debug_log("Incoming priority %s is lower than an existing "
                                "stack item with the same key %s. Not adding to "
